@@ -842,6 +842,35 @@ class Inliner(object):
         # shallow copy of the statement so that nested bodies stay shared (they are expanded separately)
         return R().visit(st)
 
+    def _uncomp_for_helpers(self, func, stmts, local_defs, changed):
+        """`xs = [E for a in A for b in helper(a)]` where `helper` is a new helper with statements of its own (it cannot be
+        substituted into the comprehension): written out as the loops it abbreviates - `xs = []; for a in A: for b in helper(a):
+        xs.append(E)` - so that the helper can be spliced where it is called.  Same evaluation order, same list."""
+        out = []
+        for st in stmts:
+            v = st.value if isinstance(st, ast.Assign) and len(st.targets) == 1 and isinstance(st.targets[0], ast.Name) else None
+            if isinstance(v, ast.ListComp) and not any(isinstance(x, (ast.ListComp, ast.GeneratorExp, ast.SetComp, ast.DictComp, ast.Lambda))
+                                                      for x in ast.walk(v) if x is not v):
+                calls = [c for c in ast.walk(v) if isinstance(c, ast.Call) and self.helper_for(func, c, local_defs)]
+                hard = [c for c in calls if self.expr_body(self.helper_for(func, c, local_defs)[1]) is None]
+                tgt = st.targets[0].id
+                if hard and tgt not in {n.id for n in ast.walk(v) if isinstance(n, ast.Name)}:
+                    inner = [ast.Expr(value=ast.Call(func=ast.Attribute(value=ast.Name(id=tgt, ctx=ast.Load()), attr='append', ctx=ast.Load()),
+                                                     args=[v.elt], keywords=[]))]
+                    for g in reversed(v.generators):
+                        for cnd in reversed(g.ifs):
+                            inner = [ast.If(test=cnd, body=inner, orelse=[])]
+                        inner = [ast.For(target=g.target, iter=g.iter, body=inner, orelse=[])]
+                    new = [ast.Assign(targets=[ast.Name(id=tgt, ctx=ast.Store())], value=ast.List(elts=[], ctx=ast.Load()))] + inner
+                    for n_ in new:
+                        ast.copy_location(n_, st)
+                        ast.fix_missing_locations(n_)
+                    out.extend(new)
+                    changed[0] = True
+                    continue
+            out.append(st)
+        return out
+
     def _sink_search_result(self, func, stmts, local_defs):
         """The "search helper + driver" shape
 
@@ -955,6 +984,7 @@ class Inliner(object):
             for s in stmts:
                 if isinstance(s, (ast.FunctionDef, ast.AsyncFunctionDef)):
                     local_defs[s.name] = s
+            stmts = self._uncomp_for_helpers(func, list(stmts), local_defs, changed)
             sunk = self._sink_search_result(func, list(stmts), local_defs) if depth < MAX_DEPTH else None
             if sunk is not None:
                 changed[0] = True
